@@ -150,6 +150,9 @@ func run(c *core.Ctx) {
 		negativeControls(c, bundle.Bytes(), infos)
 	}
 
+	// ---- (4) the named deviation: recover mode ---------------------------------------
+	recoverScenario(c)
+
 	// ---- (1) the design: exhaustive layers L and A ---------------------------------
 	designLayers(c)
 }
